@@ -23,7 +23,7 @@ ASSUMPTIONS = [
     "declaring on a node overrides the binding of that prefix throughout its subtree",
     "fix_nsmap / set_nsmap are outside the quantifier's operation set",
 ]
-REQUIRED = ["detach_steps_clearing_the_parent_link", "histories_with_prefixed_elements", "steps", "attach_steps", "declare_steps", "redeclare_steps", "remove_steps", "redeclare_on_node_sharing_parent_map",
+REQUIRED = ["attach_steps_at_a_position_past_the_end", "detach_steps_clearing_the_parent_link", "histories_with_prefixed_elements", "steps", "attach_steps", "declare_steps", "redeclare_steps", "remove_steps", "redeclare_on_node_sharing_parent_map",
             "frame_checks_outside_subtree", "states_expanded", "attachments_made_by_reference_expansion"]
 EXHAUSTIVE = {"quick": False, "thorough": False}
 
@@ -106,6 +106,8 @@ def apply_real(nodes, op):
         if len(op) > 3 and op[3]:
             nodes[op[2]].parent = None
         return r
+    if len(op) > 3 and op[3] is not None:
+        return nodes[op[1]].add_child(nodes[op[2]], op[3])      # (at a position: the front, or - as list.insert allows - one past the end)
     return nodes[op[1]].add_child(nodes[op[2]])
 
 
@@ -173,7 +175,7 @@ def step(ctx, nodes, label, f, op, wit):
                 ctx.violation(f"remove:{what}", f"{op}: node {i} shows {after[i]}, expected {exp}", wit())
                 return False
     else:
-        _, P, C = op
+        _, P, C = op[:3]
         pushed = {k: v for k, v in before[P].items() if k not in before[C]}
         exp = dict(before[C])
         exp.update(pushed)
@@ -295,7 +297,8 @@ def random_history(ctx, hist_no):
         # namespace names as vocabularies publish them: an empty fragment or query at the end, upper case, a default port, an escape, a blank
         uris = uris + ("http://www.w3.org/1999/02/22-rdf-syntax-ns#", "http://www.w3.org/2001/XMLSchema#", "http://www.w3.org/2001/XMLSchema",
                        "https://example.org/ns?", "https://example.org/ns", "HTTP://Example.ORG/Ns", "http://example.org:80/", "http://example.org/%7Ea",
-                       "http://example.org/a b", "http://example.org/a\tb", "https://eml.ecoinformatics.org/eml-2.2.0", "http://example.org/a/../b", "http://example.org")
+                       "http://example.org/a b", "http://example.org/a\tb", "https://eml.ecoinformatics.org/eml-2.2.0", "http://example.org/a/../b", "http://example.org",
+                       None)      # (a failed lookup handed on, a placeholder: the value is a value)
     # the forest starts with two documents imported from the same text (equal declarations, maps shared inside each document as
     # the importer does) plus separate nodes: "unrelated trees are unaffected" is checked across all of them
     doc = '<r xmlns:a="u1" xmlns:b="u2"><x><y/><w/></x><z xmlns:c="u3"/></r>'
@@ -355,7 +358,9 @@ def random_history(ctx, hist_no):
             cands = [c for c in range(n) if f.may_attach(x, c)]
             if not cands:
                 continue
-            op = ("attach", x, rng.choice(cands))
+            op = ("attach", x, rng.choice(cands), rng.choice([None, None, 0, 1, len(f.kids[x]), len(f.kids[x]) + 3]))
+            if op[3] is not None and op[3] > len(f.kids[x]):
+                ctx.count("attach_steps_at_a_position_past_the_end")
         elif k < 0.8:
             op = ("declare", x, rng.choice(prefixes), rng.choice(uris))
         else:
